@@ -201,6 +201,12 @@ def gen_dataset(rng, target="binary", n=None, kinds=None, with_dev=None):
               # a*x+b is not exact on neighbouring doubles: no affine re-encoding there (C11 says "exactly representable")
               no_affine=any(g[1] in ("ulp", "float32i") for g in gens.values()))
     ds["ok_target"] = _target_ok(ds)
+    if target == "binary" and ds["ok_target"] and rng.random() < 0.06:
+        # the same binary target as booleans (True / False), a usual way of holding it
+        ds["y"] = ds["y"].astype(bool)
+        if ds["y_dev"] is not None:
+            ds["y_dev"] = ds["y_dev"].astype(bool)
+        ds["bool_target"] = True
     return ds
 
 
